@@ -52,7 +52,10 @@ Definition check_ann : P (list Z) :=
 Definition check_sort : P (list Z) :=
   inp <- plist pupdate ;; obs <- plist pupdate ;;
   let j1 := list_eqb update_eqb (isort less inp) obs in
-  let j2 := sortedb itv_leb obs && list_eqb update_eqb (isort less inp) (isort less obs) in
+  (* permutation test independent of the comparison under test: equal multiplicities *)
+  let cnt := fun (l : list update) (u : update) => length (filter (update_eqb u) l) in
+  let j2 := sortedb itv_leb obs && Nat.eqb (length inp) (length obs)
+            && forallb (fun u => Nat.eqb (cnt inp u) (cnt obs u)) inp in
   ret (code_if j1 1 ++ code_if j2 2)%list.
 
 (* tag 3  BULK: children later_versions nruns | status count ordered runs_identical
